@@ -61,8 +61,8 @@ def run_once(case, observe=None):
     pops = []
     orig = solver.update_hof
 
-    def spy(population):
-        orig(population)
+    def spy(population, *args, **kwargs):  # transparent to extra arguments a refactoring may add
+        orig(population, *args, **kwargs)
         history.append(solver.hof[0][0])
         pops.append([c for _, c in population])
 
